@@ -7,8 +7,6 @@ from vlib import gen as G
 
 ID = "C10"
 PROP_FILE = "Props/C10.v"
-THEOREMS = ["C10_get_set_same", "C10_get_set_other", "C10_history", "C10_new", "C10_filled", "C10_from_closure", "C10_transform",
-            "C10_all", "C10_all_ok", "C10_disabled_panics", "C10_nonvacuous"]
 RULE = ("field-less enums with 1-8 enabled variants and every placement of disabled ones for up to 5 variants (identifiers with "
         "acronyms / digits / underscores so that the snake-cased field names are exercised). Histories per definition: all "
         "write/read sequences up to length 3 (quick) / 4 (thorough) over all keys with values {1,2,3} followed by a dump of every "
